@@ -261,6 +261,9 @@ func runPhase(a OrchArgs, info *props.Info, seed uint64, budget time.Duration, a
 			if e.eof {
 				w.done = true
 				live--
+				if w.exit != 0 && w.exit != 1 {
+					stopAll() // a worker died: examine that run instead of burning the rest of the budget
+				}
 				continue
 			}
 			w.lastBeat = time.Now()
@@ -282,6 +285,7 @@ func runPhase(a OrchArgs, info *props.Info, seed uint64, budget time.Duration, a
 				if !w.done && !w.killed && time.Since(w.lastBeat) > a.HangLimit {
 					w.killed = true
 					w.cmd.Process.Signal(syscall.SIGQUIT)
+					stopAll()
 					go func(w *workerState) {
 						time.Sleep(10 * time.Second)
 						if !w.done {
